@@ -42,3 +42,4 @@ MANIFEST_ENTRY = dict(category='proof', technique='CBMC loop contracts on the me
     note='Permutation abstracted (C06 covers it); C-ification rules and memcpy model trusted.')
 NATIVE_FLAGS = ['-mavx2', '-mavx512f', '-D__AVX512__']
 NATIVE_SOURCES = []
+ORACLE_SCANS = True
